@@ -24,7 +24,7 @@ SHRINK_BUDGET = {'quick': 60, 'thorough': 400}
 
 def strategy(tier):
   return st.one_of(st.fixed_dictionaries({'every': st.integers(1, 4), 'h': O.history('formula', 1, 12)}),
-                   st.fixed_dictionaries({'every': st.integers(1, 4), 'h': O.history('triggers', 2, 10, max_ops=2)}),
+                   st.fixed_dictionaries({'every': st.integers(1, 4), 'h': O.history('triggers', 2, 10, max_ops=2, focus='triggers')}),
                    st.fixed_dictionaries({'every': st.integers(1, 2), 'h': O.history('widgets', 2, 10, focus='widgets')}))
 
 
